@@ -205,4 +205,201 @@ theorem nondivisor_strictly_worse {m1 m2 s n1 n2 : Nat} (hs : 1 ≤ s) (hv : Val
     have a4 : m1 * (n2 * (m1 * q)) < m1 * (m2 * (n1 * m2)) := Nat.mul_lt_mul_of_pos_left a3 hm1
     nlinarith [a4]
 
+
+/-! ### first search -/
+
+/-- invariant of the first search: `(n1, n2)` is a factorisation with `n1 ≤ m1` and no valid factorisation has a
+    smaller first factor -/
+theorem search1_spec (s m1 m2 fi : Nat) (hs : 1 ≤ s) (hfi : min s m1 + 2 ≤ fi) :
+    ∀ f n1 n2, 1 ≤ n1 → n1 * n2 = s → n1 ≤ m1 → (∀ a b, Valid m1 m2 s a b → n1 ≤ a) →
+      (∀ a b, search1 s m1 m2 fi f n1 n2 = .grid a b →
+          Valid m1 m2 s a b ∧ 1 ≤ a ∧ ∀ a' b', Valid m1 m2 s a' b' → a ≤ a') ∧
+      (search1 s m1 m2 fi f n1 n2 = .noGrid → ∀ a b, ¬ Valid m1 m2 s a b) ∧
+      (min s m1 + 2 ≤ f + n1 → search1 s m1 m2 fi f n1 n2 ≠ .outOfFuel) := by
+  intro f
+  induction f with
+  | zero =>
+    intro n1 n2 h1 hp hm hmin
+    have hn2 : 1 ≤ n2 := by
+      rcases Nat.eq_zero_or_pos n2 with e | e
+      · subst e; simp at hp; omega
+      · exact e
+    have hle : n1 ≤ s := by
+      calc n1 = n1 * 1 := (Nat.mul_one _).symm
+        _ ≤ n1 * n2 := Nat.mul_le_mul_left n1 hn2
+        _ = s := hp
+    exact ⟨(by intro a b h; simp [search1] at h), (by intro h; simp [search1] at h), (by intro h; omega)⟩
+  | succ f ih =>
+    intro n1 n2 h1 hp hm hmin
+    obtain ⟨g, rfl⟩ : ∃ g, fi = g + 1 := ⟨fi - 1, by omega⟩
+    rw [search1]
+    by_cases hgt : n2 > m2
+    · obtain ⟨k, hk⟩ := inner1_isSome s m1 g (n1+1) (by omega)
+      obtain ⟨hk1, hk2, hk3⟩ := inner1_some s m1 _ _ _ hk
+      simp only [if_pos hgt, hk]
+      -- no valid factorisation has first factor < k
+      have hnew : ∀ a b, Valid m1 m2 s a b → k ≤ a := by
+        intro a b hv
+        have ha := hmin a b hv
+        obtain ⟨_, _, has, _⟩ := valid_pos hs hv
+        have hne : a ≠ n1 := by
+          rintro rfl
+          have : a * b = a * n2 := by rw [hv.1, hp]
+          have : b = n2 := Nat.eq_of_mul_eq_mul_left (by omega) this
+          have := hv.2.2
+          omega
+        by_contra hlt
+        have := (hk3 a (by omega) (by omega)).2
+        exact this (mod_eq_zero_of_mul hv.1)
+      by_cases hbig : k > min s m1
+      · simp only [if_pos hbig]
+        refine ⟨(by intro a b h; cases h), ?_, (by intro _ h; cases h)⟩
+        intro _ a b hv
+        have := hnew a b hv
+        obtain ⟨_, _, has, _⟩ := valid_pos hs hv
+        have := hv.2.1
+        omega
+      · simp only [if_neg hbig]
+        have hdiv : s % k = 0 := by
+          by_contra hne
+          exact hk2 ⟨by omega, hne⟩
+        have hkp : k * (s / k) = s := Nat.mul_div_cancel' (Nat.dvd_of_mod_eq_zero hdiv)
+        obtain ⟨i1, i2, i3⟩ := ih k (s / k) (by omega) hkp (by omega) hnew
+        exact ⟨i1, i2, fun h => i3 (by omega)⟩
+    · simp only [if_neg hgt]
+      refine ⟨?_, (by intro h; cases h), (by intro _ h; cases h)⟩
+      intro a b h
+      cases h
+      exact ⟨⟨hp, hm, by omega⟩, h1, fun a' b' hv => hmin a' b' hv⟩
+
+theorem search1_mono (s m1 m2 : Nat) {fi fi' : Nat} (hfi : fi ≤ fi') :
+    ∀ f f' n1 n2 o, f ≤ f' → search1 s m1 m2 fi f n1 n2 = o → o ≠ .outOfFuel →
+      search1 s m1 m2 fi' f' n1 n2 = o := by
+  intro f
+  induction f with
+  | zero => intro f' n1 n2 o _ h ho; simp [search1] at h; exact absurd h.symm ho
+  | succ f ih =>
+    intro f' n1 n2 o hff h ho
+    obtain ⟨f'', rfl⟩ : ∃ g, f' = g + 1 := ⟨f' - 1, by omega⟩
+    rw [search1] at h
+    rw [search1]
+    by_cases hgt : n2 > m2
+    · simp only [if_pos hgt] at h ⊢
+      cases hk : inner1 s m1 fi (n1+1) with
+      | none => simp only [hk] at h; exact absurd h.symm ho
+      | some k =>
+        simp only [hk, inner1_mono_le s m1 hfi _ _ hk] at h ⊢
+        by_cases hbig : k > min s m1
+        · simp only [if_pos hbig] at h ⊢; exact h
+        · simp only [if_neg hbig] at h ⊢; exact ih _ _ _ _ (by omega) h ho
+    · simp only [if_neg hgt] at h ⊢; exact h
+
+
+/-! ### second search -/
+
+theorem search2_spec (s m1 m2 fi : Nat) (hs : 1 ≤ s) (hfi : m1 + 1 ≤ fi) :
+    ∀ f n1 n2 rn rd, Valid m1 m2 s n1 n2 →
+      rn = ratioNum m1 m2 n1 n2 → rd = ratioDen m1 m2 n1 n2 →
+      (∀ a b, search2 s m1 m2 fi f n1 n2 rn rd = .grid a b → Valid m1 m2 s a b) ∧
+      search2 s m1 m2 fi f n1 n2 rn rd ≠ .noGrid ∧
+      (min s m1 + 1 ≤ f + n1 → search2 s m1 m2 fi f n1 n2 rn rd ≠ .outOfFuel) := by
+  intro f
+  induction f with
+  | zero =>
+    intro n1 n2 rn rd hv _ _
+    obtain ⟨_, _, _, _⟩ := valid_pos hs hv
+    have := hv.2.1
+    exact ⟨(by intro a b h; simp [search2] at h), (by simp [search2]), (by intro h; omega)⟩
+  | succ f ih =>
+    intro n1 n2 rn rd hv hrn hrd
+    obtain ⟨hn1, hn2, hn1s, _⟩ := valid_pos hs hv
+    obtain ⟨g, rfl⟩ : ∃ g, fi = g + 1 := ⟨fi - 1, by omega⟩
+    obtain ⟨k, hk⟩ := inner2_isSome s m1 g (n1+1) (by omega)
+    obtain ⟨hk1, hk2, hk3⟩ := inner2_some s m1 _ _ _ hk
+    rw [search2]
+    simp only [hk]
+    by_cases hbig : k > min s m1
+    · simp only [if_pos hbig]
+      refine ⟨?_, (by intro h; cases h), (by intro _ h; cases h)⟩
+      intro a b h; cases h; exact hv
+    · have hlt : s / k < n2 := div_lt_of_lt hs hv.1 (by omega)
+      have hle2 : s / k ≤ m2 := by have := hv.2.2; omega
+      simp only [if_neg hbig, if_pos hle2]
+      by_cases hacc : ratioNum m1 m2 k (s / k) * rd < rn * ratioDen m1 m2 k (s / k)
+      · simp only [if_pos hacc]
+        -- an accepted candidate divides the size
+        have hdiv : s % k = 0 := by
+          by_contra hne
+          have hkm : k = m1 := by
+            have : ¬ k < m1 := fun h => hk2 ⟨h, hne⟩
+            omega
+          subst hkm
+          rw [hrn, hrd] at hacc
+          exact cand_max1_not_better hv (by omega) hacc
+        have hkp : k * (s / k) = s := Nat.mul_div_cancel' (Nat.dvd_of_mod_eq_zero hdiv)
+        have hv' : Valid m1 m2 s k (s / k) := ⟨hkp, by omega, hle2⟩
+        obtain ⟨i1, i2, i3⟩ := ih k (s / k) _ _ hv' rfl rfl
+        exact ⟨i1, i2, fun h => i3 (by omega)⟩
+      · simp only [if_neg hacc]
+        refine ⟨?_, (by intro h; cases h), (by intro _ h; cases h)⟩
+        intro a b h; cases h; exact hv
+
+theorem search2_mono (s m1 m2 : Nat) {fi fi' : Nat} (hfi : fi ≤ fi') :
+    ∀ f f' n1 n2 rn rd o, f ≤ f' → search2 s m1 m2 fi f n1 n2 rn rd = o → o ≠ .outOfFuel →
+      search2 s m1 m2 fi' f' n1 n2 rn rd = o := by
+  intro f
+  induction f with
+  | zero => intro f' n1 n2 rn rd o _ h ho; simp [search2] at h; exact absurd h.symm ho
+  | succ f ih =>
+    intro f' n1 n2 rn rd o hff h ho
+    obtain ⟨f'', rfl⟩ : ∃ g, f' = g + 1 := ⟨f' - 1, by omega⟩
+    rw [search2] at h
+    rw [search2]
+    cases hk : inner2 s m1 fi (n1+1) with
+    | none => simp only [hk] at h; exact absurd h.symm ho
+    | some k =>
+      simp only [hk, inner2_mono_le s m1 hfi _ _ hk] at h ⊢
+      by_cases hbig : k > min s m1
+      · simp only [if_pos hbig] at h ⊢; exact h
+      · simp only [if_neg hbig] at h ⊢
+        by_cases hle2 : s / k ≤ m2
+        · simp only [if_pos hle2] at h ⊢
+          by_cases hacc : ratioNum m1 m2 k (s / k) * rd < rn * ratioDen m1 m2 k (s / k)
+          · simp only [if_pos hacc] at h ⊢; exact ih _ _ _ _ _ _ (by omega) h ho
+          · simp only [if_neg hacc] at h ⊢; exact h
+        · simp only [if_neg hle2] at h ⊢; exact ih _ _ _ _ _ _ (by omega) h ho
+
+/-! ### the whole function -/
+
+theorem runWith_mono {F F' m1 m2 s : Nat} (hF : F ≤ F') {o : Outcome}
+    (h : runWith F m1 m2 s = o) (ho : o ≠ .outOfFuel) : runWith F' m1 m2 s = o := by
+  unfold runWith at h ⊢
+  cases h1 : search1 s m1 m2 F F 1 s with
+  | grid a b =>
+    rw [h1] at h
+    rw [search1_mono s m1 m2 hF _ _ _ _ _ hF h1 (by intro e; cases e)]
+    exact search2_mono s m1 m2 hF _ _ _ _ _ _ _ hF h ho
+  | noGrid =>
+    rw [h1] at h
+    rw [search1_mono s m1 m2 hF _ _ _ _ _ hF h1 (by intro e; cases e)]
+    exact h
+  | outOfFuel => rw [h1] at h; exact absurd h.symm ho
+
+/-- complete specification of a run with enough fuel -/
+theorem runWith_spec {F m1 m2 s : Nat} (hs : 1 ≤ s) (hm1 : 1 ≤ m1) (hF : m1 + 2 ≤ F) :
+    runWith F m1 m2 s ≠ .outOfFuel ∧
+    (∀ a b, runWith F m1 m2 s = .grid a b → Valid m1 m2 s a b) ∧
+    (runWith F m1 m2 s = .noGrid → ∀ a b, ¬ Valid m1 m2 s a b) := by
+  have hmin : min s m1 ≤ m1 := Nat.min_le_right _ _
+  obtain ⟨g1, g2, g3⟩ := search1_spec s m1 m2 F hs (by omega) F 1 s (Nat.le_refl _) (Nat.one_mul s) hm1
+    (fun a b hv => (valid_pos hs hv).1)
+  unfold runWith
+  cases h1 : search1 s m1 m2 F F 1 s with
+  | grid a b =>
+    obtain ⟨hv, ha, _⟩ := g1 a b h1
+    obtain ⟨i1, i2, i3⟩ := search2_spec s m1 m2 F hs (by omega) F a b _ _ hv rfl rfl
+    exact ⟨i3 (by omega), i1, fun h => absurd h i2⟩
+  | noGrid => exact ⟨(by intro e; cases e), (by intro a b e; cases e), fun _ => g2 h1⟩
+  | outOfFuel => exact absurd h1 (g3 (by omega))
+
 end PygyroVerif.ProcGrid
